@@ -240,7 +240,7 @@ func (g *c15gen) validValue(kind string) string {
 	}
 	switch kind {
 	case "string":
-		return []string{"v", "hello world", "a.b.c", "x=y", "UPPER", "with,comma", "uni-ü", "1234", "true", "-"}[r.IntN(10)]
+		return []string{"v", "hello world", "a.b.c", "x=y", "UPPER", "with,comma", "uni-ü", "1234", "true", "-", `C:\temp\new`, `a\\b`, `say "hi"`, `tab\there`, `back\/slash`, `{brace}`}[r.IntN(16)]
 	case "dir":
 		return filepath.Join(g.scratch, []string{"d1", "d2", "d3"}[r.IntN(3)])
 	case "fname":
